@@ -420,16 +420,20 @@ def rule_jn_build(cx, rep, port):
     rep.decide(len(incs) == 1, 'B record number', incs[0] if incs else b, 'bNR counts B records from 1', 'B records are not numbered 1, 2, ... in read order')
     eof = [n for n in walk_no_nested(b) if isinstance(n, ast.If) and isinstance(n.test, ast.Compare) and is_none(n.test.comparators[0]) and isinstance(n.body[0], ast.Break)]
     rep.decide(len(eof) == 1 and (not incs or eof[0].lineno < incs[0].lineno), 'B end of input', eof[0] if eof else b, 'stops at the first None record, before counting it', 'B reading does not stop at the first None record before counting')
-    triples = [n for n in ast.walk(b) if isinstance(n, (ast.Tuple, ast.List)) and len(n.elts) == 3 and [dotted(e) for e in n.elts] == [nr, 'nf', 'fields']]
+    recv = [dotted(n.targets[0]) for n in walk_no_nested(b) if isinstance(n, ast.Assign) and isinstance(n.value, ast.Call) and (call_name(n.value) or '').endswith('record_iterator.get_record')]
+    rec = recv[0] if recv else 'fields'
+    nfv = [dotted(n.targets[0]) for n in walk_no_nested(b) if isinstance(n, ast.Assign) and node_text(n.value) == 'len({})'.format(rec)]
+    nfn = nfv[0] if nfv else 'nf'
+    triples = [n for n in ast.walk(b) if isinstance(n, (ast.Tuple, ast.List)) and len(n.elts) == 3 and [dotted(e) for e in n.elts] == [nr, nfn, rec]]
     rep.decide(len(triples) >= 1, 'match triple', triples[0] if triples else b, 'matches are stored as (bNR, bNF, record)', 'B matches are not stored as (record number, field count, record)')
     apps = [c for c in walk_no_nested(b) if isinstance(c, ast.Call) and isinstance(c.func, ast.Attribute) and c.func.attr in ('append', 'push')]
     ins = [c for c in walk_no_nested(b) if isinstance(c, ast.Call) and isinstance(c.func, ast.Attribute) and c.func.attr in ('insert', 'unshift')]
     rep.decide(len(apps) == 1 and not ins, 'B order', apps[0] if apps else b, 'matches of a key are appended in B order', 'matches of a key are not kept in B order')
     mx = [n for n in walk_no_nested(b) if isinstance(n, ast.Assign) and dotted(n.targets[0]) == 'self.max_record_len']
-    okm = len(mx) == 1 and 'max(self.max_record_len, nf)' in node_text(mx[0].value).replace('Math.', '')
+    okm = len(mx) == 1 and 'max(self.max_record_len, {})'.format(nfn) in node_text(mx[0].value).replace('Math.', '')
     rep.decide(okm, 'max width', mx[0] if mx else b, 'max_record_len is the running maximum of the B field counts', 'max_record_len is not the maximum field count of B')
-    nf = [n for n in walk_no_nested(b) if isinstance(n, ast.Assign) and is_name(n.targets[0], 'nf')]
-    rep.decide(len(nf) == 1 and node_text(nf[0].value) == 'len(fields)', 'bNF', nf[0] if nf else b, 'bNF = len(record)', 'bNF is not the field count of the B record')
+    nf = [n for n in walk_no_nested(b) if isinstance(n, ast.Assign) and is_name(n.targets[0], nfn)]
+    rep.decide(len(nf) == 1 and node_text(nf[0].value) == 'len({})'.format(rec), 'bNF', nf[0] if nf else b, 'bNF = len(record)', 'bNF is not the field count of the B record')
     # key functions: index -1 -> record number ; missing field -> runtime error
     for mname in ('get_single_key', 'get_multi_key'):
         m = ms[mname]
